@@ -86,6 +86,8 @@ pub enum Aux {
     NextItem(u8),
     /// waiting for the end of the lifetime in slot lt
     Lifetime(u8),
+    /// a callee waiting in `Promise::aborted()` for the call with this nonce
+    Aborted(u64),
 }
 
 #[derive(Clone, Debug)]
@@ -259,6 +261,10 @@ pub struct ClientCtx {
     pub proxies: Vec<Slot<Proxy>>,
     pub stash: RefCell<VecDeque<(PendingReply, u64, Uuid)>>,
     pub held: RefCell<VecDeque<(Promise, u64)>>,
+    /// nonces of held promises whose `aborted()` a task is currently awaiting
+    pub awaiting_aborted: RefCell<Vec<u64>>,
+    /// the promises those tasks wait on (in slots, so that `drop_all` can take them away)
+    pub aborted_slots: RefCell<Vec<Slot<Promise>>>,
     pub snd: Vec<Slot<SndEnd>>,
     pub rcv: Vec<Slot<RcvEnd>>,
     pub lis: Vec<Slot<LisBox>>,
@@ -290,6 +296,8 @@ impl ClientCtx {
             proxies: slots(NPROXY),
             stash: RefCell::new(VecDeque::new()),
             held: RefCell::new(VecDeque::new()),
+            awaiting_aborted: RefCell::new(vec![]),
+            aborted_slots: RefCell::new(vec![]),
             snd: slots(NCH),
             rcv: slots(NCH),
             lis: slots(NLIS),
@@ -326,6 +334,10 @@ impl ClientCtx {
         self.drop_replies();
         let held = std::mem::take(&mut *self.held.borrow_mut());
         drop(held);
+        let slots: Vec<Slot<Promise>> = self.aborted_slots.borrow().clone();
+        for s in slots {
+            drop(s.take());
+        }
         for s in &self.proxies {
             drop(s.take());
         }
@@ -365,6 +377,7 @@ impl ClientCtx {
             || !self.extra.borrow().is_empty()
             || !self.stash.borrow().is_empty()
             || !self.held.borrow().is_empty()
+            || self.aborted_slots.borrow().iter().any(|s| s.is_some())
             || self.objs.iter().any(|s| s.is_some())
             || self.svcs.iter().any(|s| s.is_some())
             || self.proxies.iter().any(|s| s.is_some())
@@ -442,6 +455,8 @@ pub struct Board {
     /// the values handed to `start_send_item`, in order, per channel cookie (a channel has one
     /// sender end, so this is the send order)
     pub sent_vals: BTreeMap<Uuid, Vec<u64>>,
+    /// calls whose pending reply the caller's application dropped: nonce -> caller client
+    pub aborted_by_caller: BTreeMap<u64, (usize, Uuid)>,
     /// clients that sent on a channel
     pub senders_of: BTreeMap<Uuid, BTreeSet<usize>>,
     /// lifetime scopes that have been ended or dropped
@@ -1137,6 +1152,37 @@ async fn exec(w: &Rc<World>, t: &Rc<TaskCtx>, cc: &Rc<ClientCtx>, op: &Op) -> St
                 None => skip(w),
             }
         }
+        Op::AwaitAborted => {
+            // a callee that holds a call's promise waits for the caller to abort it; resolves when
+            // the caller aborts (>= 1.16 on both sides) or when the callee's client stops
+            let p = cc.held.borrow_mut().pop_front();
+            match p {
+                Some((promise, nonce)) => {
+                    cc.awaiting_aborted.borrow_mut().push(nonce);
+                    w.count("promise:aborted-awaited");
+                    let slot: Slot<Promise> = Slot::new();
+                    drop(slot.put(promise));
+                    cc.aborted_slots.borrow_mut().push(slot.clone());
+                    let r = t.stream_aux("promise_aborted", Aux::Aborted(nonce), slot_op(&slot, |p, cx| p.poll_aborted(cx))).await;
+                    cc.awaiting_aborted.borrow_mut().retain(|n| *n != nonce);
+                    let promise = slot.take();
+                    if r.is_none() {
+                        // the application let go of the promise while waiting
+                        return "promise dropped".into();
+                    }
+                    if let Some(mut promise) = promise {
+                        let ab = promise.is_aborted();
+                        drop(promise);
+                        if !ab {
+                            w.fail("promise:aborted-resolved-but-is_aborted-false", format!("Promise::aborted() of call {} resolved but is_aborted() says false", nonce));
+                        }
+                    }
+                    w.count("promise:aborted-resolved");
+                    "aborted seen".into()
+                }
+                None => skip(w),
+            }
+        }
         Op::Emit { s, ev } => {
             let nonce = w.next_nonce();
             match cc.svcs[*s as usize].with(|svc| svc.emit(EVENTS[*ev as usize], nonce)) {
@@ -1193,6 +1239,7 @@ async fn exec(w: &Rc<World>, t: &Rc<TaskCtx>, cc: &Rc<ClientCtx>, op: &Op) -> St
                     cc.abort_dirty.set(true);
                     drop(reply);
                     w.board.borrow_mut().inflight.remove(&nonce);
+                    w.board.borrow_mut().aborted_by_caller.insert(nonce, (ci, cookie));
                     w.count("call:aborted-by-drop");
                     "aborted".into()
                 }
@@ -1219,10 +1266,11 @@ async fn exec(w: &Rc<World>, t: &Rc<TaskCtx>, cc: &Rc<ClientCtx>, op: &Op) -> St
             }
             let x = cc.stash.borrow_mut().pop_front();
             match x {
-                Some((reply, nonce, _)) => {
+                Some((reply, nonce, cookie)) => {
                     cc.abort_dirty.set(true);
                     drop(reply);
                     w.board.borrow_mut().inflight.remove(&nonce);
+                    w.board.borrow_mut().aborted_by_caller.insert(nonce, (ci, cookie));
                     w.count("call:aborted-by-drop");
                     "aborted".into()
                 }
